@@ -296,6 +296,22 @@ def ones_count(v, n):
                     if p is not None and all(co < 0 for co in p.t.values()):
                         return "negative slice start -k selects the whole array when k == 0"
                     return sub(tot, lo), tot
+    # comparison of the positions 0..n-1 with a bound:  (arange(n) < x)  holds for ceil(x) positions,  (arange(n) <= x)  for floor(x) + 1  (0 <= x <= n)
+    if isinstance(v, App) and v.fn in ("lt0", "le0") and len(v.args) == 1:
+        ar = []
+        from ..terms import walk
+        walk(v.args[0], lambda t: ar.append(t) if isinstance(t, App) and t.fn == "arange" else None)
+        ar = list({a.key: a for a in ar}.values())
+        if len(ar) == 1 and len(ar[0].args) == 1:
+            tot = ar[0].args[0]
+            bound = sub(ar[0], v.args[0])  # arange - (arange - x) = x
+            rest = []
+            walk(bound, lambda t: rest.append(t) if isinstance(t, App) and t.fn == "arange" else None)
+            if not rest:
+                integral = isinstance(bound, App) and bound.fn in ("floor", "trunc", "ceil")
+                if v.fn == "lt0":
+                    return (bound if integral else mk_app("ceil", [bound])), tot
+                return add(bound if integral else mk_app("floor", [bound]), Const(1)), tot
     return None
 
 
